@@ -19,9 +19,22 @@ ASSUMPTIONS = [
     "'below a metadata element' = proper descendants of a node named metadata; the metadata node itself is judged",
     "replacement of metadata content keeps the class 'at most one child' / 'more than one child'",
 ]
-REQUIRED = ["vocabulary_attribute_probes", "subtrees_validated_in_place", "metadata_roots", "second_walks_into_the_same_list", "vocabulary_probes", "trees_with_more_than_5000_errors", "trees_with_repeated_id_strings", "trees", "trees_ge2_invalid_nodes", "trees_invalid_below_metadata", "metamorphic_reruns", "trace_checked",
+REQUIRED = ["nodes_with_more_than_100000_children", "trees_of_a_node_subclass_with_container_protocol", "vocabulary_attribute_probes", "subtrees_validated_in_place", "metadata_roots", "second_walks_into_the_same_list", "vocabulary_probes", "trees_with_more_than_5000_errors", "trees_with_repeated_id_strings", "trees", "trees_ge2_invalid_nodes", "trees_invalid_below_metadata", "metamorphic_reruns", "trace_checked",
             "failfast_ok_trees", "failfast_failing_trees"]
 EXHAUSTIVE = {"quick": False, "thorough": False}
+
+
+class ContainerNode(Node):
+    """An application's node class with the container protocol on top (len, iteration, indexing over the children)."""
+
+    def __len__(self):
+        return len(self.children)
+
+    def __iter__(self):
+        return iter(self.children)
+
+    def __getitem__(self, i):
+        return self.children[i]
 
 
 def plan(tier, seed):
@@ -85,7 +98,13 @@ def judge(ctx, t, origin, log=None):
         ctx.evaluated(2 * len(judged))
         with Spy() as spy:
             tree_errs = []
-            mvalidate.tree(t, tree_errs)
+            try:
+                mvalidate.tree(t, tree_errs)
+            except mexc.MetapypeRuleError as e:
+                # every node on its own came back from the collecting call: the walk over them has nothing of its own to object to
+                ctx.violation("tree-raises-in-collecting-mode-although-no-node-does", f"validate.tree with an error list raised {e!r:.200} after "
+                              f"{len(spy.calls)} of {len(judged)} nodes; every single node's collecting validation returns", wit())
+                return
         trace = spy.calls
         # the same tree validated once more into the SAME list (validate / look at the list / validate again, as an editor does): the
         # second walk appends what the first one did
@@ -346,6 +365,28 @@ def run(ctx, params):
     ctx.case(judge, ctx, wide, "attribute list with thousands of invalid attributes", seconds=300.0)
     ctx.count("trees_with_more_than_5000_errors")
     emlkit.discard(wide)
+    # one node with more than a hundred thousand children (a taxonomic coverage listing every taxon, a code list): all of them visited
+    if params.get("salt", 0) == 0:
+        for count in ((100001,) if ctx.tier == "quick" else (100001, 131073, 262145)):
+            for valid in (True, False):
+                huge = Node("keywordSet" if valid else "taxonomicCoverage")
+                for k in range(count):
+                    huge.add_child(Node("keyword", content=f"k{k}") if valid else Node("taxonomicClassification"))
+                ctx.case(judge, ctx, huge, f"a node with {count} {'valid' if valid else 'invalid'} children", seconds=900.0)
+                ctx.count("nodes_with_more_than_100000_children")
+                emlkit.discard(huge)
+    # models built from an application's own subclass of Node that adds the container protocol (len(node) = number of children, iteration
+    # over the children): a childless node is falsy then - and a node all the same
+    for k in range(30):
+        t = gen.valid_tree(rng.choice(["dataset", "eml", "dataTable", "project"]), rng, rng.choice([8, 25]))
+        for x in rng.sample(treegen.all_nodes(t), min(3, len(treegen.all_nodes(t)))):
+            if not x.children:
+                x.content = rng.choice([None, "", "not a date", "http://[bad"])
+        t2 = snapshot.from_plain(ContainerNode, snapshot.to_plain(t))
+        emlkit.discard(t)
+        judge(ctx, t2, "tree of container-protocol nodes")
+        ctx.count("trees_of_a_node_subclass_with_container_protocol")
+        emlkit.discard(t2)
     # trees rebuilt with id strings repeated along paths and across branches (every node still its own object)
     for i in range(max(20, params["planted"] // 20)):
         t, log = planted(rng, gen)
@@ -370,7 +411,8 @@ def run(ctx, params):
 
 
 def replay(ctx, witness):
-    t = snapshot.from_plain(Node, witness["tree"], fresh_ids=False)
+    cls = ContainerNode if witness.get("origin") == "tree of container-protocol nodes" else Node
+    t = snapshot.from_plain(cls, witness["tree"], fresh_ids=False)
     judge(ctx, t, witness.get("origin", "replay"), witness.get("mutations"))
     ctx.distinct(1)
     ctx.distinct(2)
